@@ -1047,7 +1047,7 @@ def main(run):
     # two documents of the same format at once, for every format: a save / set / restore of interpreter-wide state inside one extractor
     # (warnings filters, locale, decimal context ...) only shows when two of its sections overlap
     for fam, spec in sorted(iso.FAMILIES.items()):
-        if spec[0] == "route" or len(spec[3]) < 2 or fam.startswith(("deep-", "unb-")):
+        if spec[0] == "route" or len(spec[3]) < 2 or fam.startswith(("deep-", "unb-")) or fam in iso.HEAVY_FAMILIES:
             continue
         v = spec[3]
         setter_cases.append({"part": "sched-globals", "steps": [[spec[0], {"src": ["iso", fam, v[0]], "op": None}, 1], [spec[0], {"src": ["iso", fam, v[1]], "op": None}, 0]],
@@ -1056,7 +1056,7 @@ def main(run):
     # threads, the extractor module reloaded before every schedule; scheduling points are the same hooks plus re.compile
     sized = {}
     for fam, spec in sorted(iso.FAMILIES.items()):
-        if spec[0] == "route" or fam.startswith("deep-") or fam in ("pdf-font", "pdf-cs"):
+        if spec[0] == "route" or fam.startswith("deep-") or fam in ("pdf-font", "pdf-cs") or fam in iso.HEAVY_FAMILIES:
             continue
         for v in spec[3]:
             src_ = ["iso", fam, v]
@@ -1131,6 +1131,15 @@ def main(run):
             same = [st for st in good if st[0] == f_[0]]
             steps += [rng.choice(formula_good if f_[0] in ("docx", "pptx") else (same or good))] + [rng.choice(good) for _ in range(rng.randint(0, 2))]
         hist_cases.append({"part": "history", "steps": steps, "id": f"fail{i}", "group": "failing-document-then-good-ones/unfinished-state"})
+    # encrypted PDFs (the password-protected fixture: rejected; generated ones that open with the empty user password) before an ordinary PDF of
+    # more than 10 MiB that contains images: whatever opening an encrypted file switches on must be switched off again for the next document
+    big = [["pdf", {"src": ["iso", "pdf-big", v], "op": None}, 1] for v in ("images", "images2")]
+    enc = [["pdf", {"src": s_, "op": None}, 1] for g_ in groups if g_["name"] == "pdf:cipher-kernel/document-key" for k_, s_ in g_["members"] if "encrypted" in str(s_[2:]) and "aes256" not in str(s_[2:])]
+    enc += [["pdf", {"src": s_, "op": None}, 1] for s_ in sources.get("pdf", []) if s_[0] == "fx" and "password" in s_[1]]
+    for i in range(run.n(2, 8)):
+        e1, e2 = rng.choice(enc), rng.choice(enc)
+        steps = ([big[i % 2], e1, big[i % 2]] if i % 2 else [e1, big[i % 2], e2, big[(i + 1) % 2]]) + [rng.choice(pool_steps[:len(pdfs)])]
+        hist_cases.append({"part": "history", "steps": steps, "id": f"bigpdf{i}", "group": "pdf:encrypted-then-large-plain/decryption-mode"})
     # every damaged archive of the pool at least once (a failure half-way through unpacking must clean up after itself, whatever the random
     # histories above happened to draw)
     dmg = [st for st in pool_steps if st[0] == "zip" and st[1].get("op")]
